@@ -230,6 +230,16 @@ func TestCheck(t *testing.T) {
 	if len(c.notes) > 0 {
 		cov["measured_not_in_oracle"] = c.notes
 	}
+	cov["notes"] = []string{
+		"observed, deliberately NOT part of any oracle (outside the property text); counts are under measured_not_in_oracle:",
+		"emit.Int(16) (hence CreateMultiSigRedeemScript with m or n = 16) pushes PUSHINT8 16 where PUSH16 would do; parser and VM read it back correctly",
+		"fixedn.FromString accepts a minus sign inside the fraction (\"1.-1\" with precision 2 is 0.99)",
+		"fixedn.Fixed8FromString silently wraps values outside the int64 range (\"92233720369\" parses without error)",
+		"the malleated signature (r, N-s) verifies for every signature: inherent to ECDSA as Neo uses it, only single-bit changes are demanded to fail",
+		"every signature equals the RFC 6979 signature computed by the Go standard library (independent implementation)",
+		"mr-tron/base58 rejects the empty string, so Decode(Encode([]byte{})) is not demanded of the raw codec",
+		"scrypt cost limits NEP-2 to 2-3 keys; CreateMultiSigRedeemScript accepts n > 1024 keys (parser refuses them): not examined beyond n = 1024",
+	}
 	r.Finish(cov, []string{
 		"reference encoders/decoders (two's complement, base-58, Merkle recursion, decimal grammar, sequential scripts) are written in the check from the definitions and share no code with /repo",
 		"crypto/sha256, crypto/elliptic, math/big of the Go standard library are trusted",
